@@ -94,17 +94,37 @@ def WF : List Span → Prop
   | [sp] => 0 < sp.2
   | sp :: sq :: rest => 0 < sp.2 ∧ sp.1 + sp.2 < sq.1 ∧ WF (sq :: rest)
 
-/-- the state-changing operations of a `Spans` history (`add`, `remove`, `self & other`). -/
+/-- the state-changing operations of a `Spans` history (`add`, `remove`, `self & other`,
+`self + other` / `+=`, `self - other` / `-=`). -/
 inductive Op where
   | add (a l : Nat)
   | remove (a l : Nat)
   | inter (o : List Span)
+  | union (o : List Span)
+  | diff (o : List Span)
 
 def applyOp (s : List Span) : Op → List Span
   | .add a l => add s a l
   | .remove a l => remove s a l
   | .inter o => inter s o
+  | .union o => addAll s o
+  | .diff o => removeAll s o
 
 def run (s : List Span) (ops : List Op) : List Span := ops.foldl applyOp s
+
+/-- one step of an observed history: a state-changing operation or the query `(a, l) in spans` -/
+inductive SQ where
+  | op (o : Op)
+  | contains (a l : Nat)
+
+/-- new state and the answer, if the step is a query -/
+def sstepQ (s : List Span) : SQ → List Span × Option Bool
+  | .op o => (applyOp s o, none)
+  | .contains a l => (s, some (containsRange s a l))
+
+/-- the answers of a whole history, in order -/
+def strace (s : List Span) : List SQ → List Bool
+  | [] => []
+  | q :: rest => (sstepQ s q).2.toList ++ strace (sstepQ s q).1 rest
 
 end Tahoe.Spans
